@@ -1021,4 +1021,195 @@ theorem nf_sound (R : TyRel τ) (E A : TDefSig τ) (hA : A.WF) (hnf : nf R E A =
       simp only [a, TP.toT, hd', Bool.false_or, List.contains_eq_mem, decide_eq_true_eq] at hfa
       exact ck_required R E A hA ks hkoOk hko a hat hfa hnot hd'
 
+/-! ## Part D — parameter contravariance -/
+
+/-- Every question the kernel asks about annotations is sound for the supertype relation `sup`
+(`sup S T`: every member of `S` is a member of `T`). -/
+structure RelSound (R : TyRel τ) (sup : τ → τ → Prop) : Prop where
+  asg : ∀ T S, R.asg T S = true → sup S T
+  vpvp : ∀ T S, R.vpvp T S = true → sup S T
+  vkvk : ∀ T S, R.vkvk T S = true → sup S T
+  xvp : ∀ T S, R.xvp T S = true → sup S T
+  xvk : ∀ T S, R.xvk T S = true → sup S T
+  evp : ∀ T S, R.evp T S = true → sup S T
+  evk : ∀ T S, R.evk T S = true → sup S T
+
+theorem mem_posL_tparams (s : TDefSig τ) (t : TParam τ) (h : t ∈ s.posL) : t ∈ s.tparams := by
+  rw [tparams_eq]; exact List.mem_append_left _ h
+
+theorem mem_koL_tparams (s : TDefSig τ) (t : TParam τ) (h : t ∈ s.koL) : t ∈ s.tparams := by
+  rw [tparams_eq]; apply List.mem_append_right
+  simp only [TDefSig.restL, List.mem_append]; exact Or.inl (Or.inr h)
+
+/-- Where a keyword lands, in terms of the lookup the model uses. -/
+theorem kwTy_eq (s : TDefSig τ) (hs : s.WF) (k : String) :
+    kwTy s k = match kwAt s.tparams k with
+      | some t => some t.ann
+      | none => s.vk.map (·.2) := by
+  unfold kwTy
+  cases hf : (s.pk ++ s.ko).find? (·.name == k) with
+  | some p =>
+    have hm := List.mem_of_find?_eq_some hf
+    have hn : p.name = k := by simpa using List.find?_some hf
+    rcases List.mem_append.mp hm with hp | hp
+    · have ht : TP.toT .posOrKw p ∈ s.tparams :=
+        mem_posL_tparams s _ (by simp only [TDefSig.posL, List.mem_append, List.mem_map]; exact Or.inr ⟨p, hp, rfl⟩)
+      have := kwAt_of_mem s.tparams hs _ ht (Or.inl rfl)
+      simp only [TP.toT] at this
+      rw [hn] at this
+      simp [this]
+    · have ht : TP.toT .kwOnly p ∈ s.tparams := mem_koL_tparams s _ (List.mem_map.mpr ⟨p, hp, rfl⟩)
+      have := kwAt_of_mem s.tparams hs _ ht (Or.inr rfl)
+      simp only [TP.toT] at this
+      rw [hn] at this
+      simp [this]
+  | none =>
+    rw [List.find?_eq_none] at hf
+    cases hk : kwAt s.tparams k with
+    | none => rfl
+    | some t =>
+      exfalso
+      obtain ⟨htm, htn, htk⟩ := kwAt_some s.tparams k t hk
+      rcases htk with htk | htk
+      · have := mem_tparams_pk s t htm htk
+        simp only [TDefSig.posL, List.mem_append, List.mem_map] at this
+        rcases this with ⟨q, _, rfl⟩ | ⟨q, hq, rfl⟩
+        · simp [TP.toT] at htk
+        · exact hf q (List.mem_append_left _ hq) (by simpa [TP.toT] using htn)
+      · have := mem_tparams_ko s t htm htk
+        simp only [TDefSig.koL, List.mem_map] at this
+        obtain ⟨q, hq, rfl⟩ := this
+        exact hf q (List.mem_append_right _ hq) (by simpa [TP.toT] using htn)
+
+theorem slot_of_kwAt_pk (s : TDefSig τ) (hs : s.WF) (k : String) (t : TParam τ)
+    (h : kwAt s.tparams k = some t) (hk : t.kind = .posOrKw) :
+    ∃ i, slotU 0 s.posL k = some i ∧ s.posL[i]? = some t := by
+  obtain ⟨htm, htn, _⟩ := kwAt_some s.tparams k t h
+  have htp := mem_tparams_pk s t htm hk
+  have := slotU_isSome_of_mem k s.posL 0 ⟨t, htp, hk, htn⟩
+  cases hsl : slotU 0 s.posL k with
+  | none => rw [hsl] at this; cases this
+  | some i =>
+    obtain ⟨e, he, hek, hen⟩ := slotU_mem k s.posL 0 i hsl
+    have hem := mem_posL_tparams s e (List.mem_of_getElem? he)
+    have : e = t := nodup_name_eq s.tparams hs e t hem htm (by rw [hen, htn])
+    subst this
+    exact ⟨i, rfl, by simpa using he⟩
+
+theorem slot_none_of_kwAt (s : TDefSig τ) (hs : s.WF) (k : String)
+    (h : ∀ t, kwAt s.tparams k = some t → t.kind ≠ .posOrKw) : slotU 0 s.posL k = none := by
+  cases hsl : slotU 0 s.posL k with
+  | none => rfl
+  | some i =>
+    exfalso
+    obtain ⟨e, he, hek, hen⟩ := slotU_mem k s.posL 0 i hsl
+    have hem := mem_posL_tparams s e (List.mem_of_getElem? he)
+    have := kwAt_of_mem s.tparams hs e hem (Or.inl hek)
+    rw [hen] at this
+    exact h e this hek
+
+section joint2
+variable (R : TyRel τ) (avp avk : Option τ)
+
+theorem pos_joint_at : ∀ (es as : List (TParam τ)) (i : Nat) (e : TParam τ),
+    matchPos R avp avk es as = true → es[i]? = some e → posStepOk R avp avk e as[i]? = true := by
+  intro es
+  induction es with
+  | nil => intro as i e _ h; simp at h
+  | cons x es ih =>
+    intro as i e hm he
+    cases as with
+    | nil =>
+      simp only [matchPos, Bool.and_eq_true] at hm
+      cases i with
+      | zero => simp at he; subst he; simpa using hm.1
+      | succ i =>
+        simp only [List.getElem?_cons_succ] at he
+        have := ih [] i e hm.2 he
+        simpa using this
+    | cons a as =>
+      simp only [matchPos, Bool.and_eq_true] at hm
+      cases i with
+      | zero => simp at he; subst he; simpa using hm.1
+      | succ i =>
+        simp only [List.getElem?_cons_succ] at he ⊢
+        exact ih as i e hm.2 he
+
+/-- Names in `consumed_keyword` after the positional segment are names of expected
+positional-or-keyword parameters. -/
+theorem posFinal_ck_pk (n : String) : ∀ (es as : List (TParam τ)) (st : SaSt),
+    matchPos R avp avk es as = true →
+    n ∈ (posFinal st es as).ck → n ∈ st.ck ∨ ∃ e ∈ es, e.kind = .posOrKw ∧ e.name = n := by
+  intro es
+  induction es with
+  | nil => intro as st _ h; exact Or.inl h
+  | cons e es ih =>
+    intro as st hm h
+    cases as with
+    | nil =>
+      simp only [matchPos, Bool.and_eq_true] at hm
+      rcases ih [] _ hm.2 h with h' | ⟨e', he', hk, hn⟩
+      · exact Or.inl (by simpa [posUpd] using h')
+      · exact Or.inr ⟨e', by simp [he'], hk, hn⟩
+    | cons a as =>
+      simp only [matchPos, Bool.and_eq_true] at hm
+      rcases ih as _ hm.2 h with h' | ⟨e', he', hk, hn⟩
+      · simp only [posUpd] at h'
+        split at h'
+        · rename_i hek
+          simp at h'
+          rcases h' with h' | h'
+          · right
+            have h1 := hm.1
+            simp only [posStepOk, hek, if_true, Bool.and_eq_true, beq_iff_eq] at h1
+            exact ⟨e, by simp, by simpa using hek, by rw [h', h1.1.1.2]⟩
+          · exact Or.inl h'
+        · exact Or.inl (by simpa using h')
+      · exact Or.inr ⟨e', by simp [he'], hk, hn⟩
+
+/-- Names in `consumed_required_pos_only` that the expected header accepts as keywords belong
+to positional-only actual parameters — unless the pair is in the `clash` class. -/
+theorem posFinal_crpo_po (acc : String → Bool) (n : String) (hacc : acc n = true) :
+    ∀ (es as : List (TParam τ)) (st : SaSt),
+    (∀ e ∈ es, isPositional e.kind = true) →
+    (∀ a ∈ as, isPositional a.kind = true) → clash acc es as = false →
+    n ∈ (posFinal st es as).crpo →
+      n ∈ st.crpo ∨ ∃ a ∈ as.take es.length, a.name = n ∧ a.kind = .posOnly := by
+  intro es
+  induction es with
+  | nil => intro as st _ _ _ h; exact Or.inl h
+  | cons e es ih =>
+    intro as st hes has hc h
+    have hes' : ∀ x ∈ es, isPositional x.kind = true := fun x hx => hes x (by simp [hx])
+    cases as with
+    | nil =>
+      rcases ih [] _ hes' (by simp) (by cases es <;> rfl) h with h' | ⟨a, ha, _⟩
+      · exact Or.inl (by simpa [posUpd] using h')
+      · simp at ha
+    | cons a as =>
+      simp only [clash, Bool.or_eq_false_iff] at hc
+      have has' : ∀ x ∈ as, isPositional x.kind = true := fun x hx => has x (by simp [hx])
+      rcases ih as _ hes' has' hc.2 h with h' | ⟨a', ha', hn, hk⟩
+      · simp only [posUpd] at h'
+        split at h'
+        · exact Or.inl (by simpa using h')
+        · rename_i hek
+          simp only at h'
+          split at h'
+          · exact Or.inl h'
+          · simp at h'
+            rcases h' with h' | h'
+            · right
+              refine ⟨a, by simp, h'.symm, ?_⟩
+              have hc1 := hc.1
+              rw [← h', hacc] at hc1
+              have hak := has a (by simp)
+              have hekk := hes e (by simp)
+              revert hc1 hak hek hekk
+              cases a.kind <;> cases e.kind <;> simp [isPositional]
+            · exact Or.inl h'
+      · exact Or.inr ⟨a', by simp [ha'], hn, hk⟩
+
+end joint2
+
 end Pya.C07
